@@ -1,9 +1,10 @@
 #!/bin/bash
 # Build the whole Coq development from files on disk (offline). Full .vo build.
 set -e
-cd /verif
+cd "$(dirname "$(readlink -f "$0")")"
+ROOT=$(pwd)
 mkdir -p .work replays evidence
-PYTHONPATH=/repo /venv/bin/python harness/translate.py coq/Generated/Constants.v
+PYTHONPATH=/repo /venv/bin/python harness/translate.py "$ROOT/coq/Generated/Constants.v"
 cd coq
 coq_makefile -f _CoqProject -o Makefile > /dev/null
 timeout 3000 make -j16 2>&1 | grep -v "^COQC\|^COQDEP\|^Closed under" || true
